@@ -29,6 +29,8 @@ pub struct ModuleSpec {
   pub theories: &'static [&'static str],
 }
 
+pub const BVEC_FNS: &[&str] = &["pod_collect_to_vec"];
+
 pub const MODULES: &[ModuleSpec] = &[
   ModuleSpec {
     name: "Internal",
@@ -54,7 +56,7 @@ pub const MODULES: &[ModuleSpec] = &[
       // Rc/Arc::new_uninit + write_zeroes: hand-modelled (Model/ZeroGuard.v)
       "zeroed_arc", "zeroed_arc_slice", "zeroed_rc", "zeroed_rc_slice",
       // byte copies / trait-dispatched BoxBytes conversions: hand-modelled (Model/Alloc.v)
-      "pod_collect_to_vec", "box_bytes_of", "from_box_bytes", "try_from_box_bytes",
+      "box_bytes_of", "from_box_bytes", "try_from_box_bytes",
     ],
     imports: &["Internal", "Root"],
     theories: &[],
@@ -216,6 +218,10 @@ fn sig_of(module: &str, f: &syn::ItemFn) -> Result<FnSig, String> {
     syn::ReturnType::Default => Ty::Unit,
     syn::ReturnType::Type(_, t) => ty_from_syn(t, &gnames)?,
   };
+  // functions that build and fill a fresh Vec: the vector is modelled with its contents
+  let (params, ret) = if BVEC_FNS.contains(&f.sig.ident.to_string().as_str()) {
+    (params.into_iter().map(|(n, t)| (n, vec_with_contents(&t))).collect(), vec_with_contents(&ret))
+  } else { (params, ret) };
   Ok(FnSig { module: module.to_string(), name: f.sig.ident.to_string(), generics, params, ret })
 }
 
